@@ -957,6 +957,15 @@ def install(R):
             q = z3.Int(fresh_name("fq"))
             E.safety("fancy-store-rows", z3.ForAll([q], z3.Implies(z3.And(q >= 0, q < m), z3.And(fi.get(q) >= -n, fi.get(q) < n))), node, "IndexError")
             pos = lambda r: z3.If(fi.get(r) < 0, fi.get(r) + n, fi.get(r))
+            if isinstance(idx.shape[0], int):
+                # a concrete number of positions: numpy's semantics exactly (writes in order, the last one wins)
+                def after(r, *c):
+                    v = old.get(r, *c)
+                    for q_ in range(idx.shape[0]):
+                        v = z3.If(pos(q_) == r, fv.get(q_, *c), v)
+                    return v
+                arr.assign_fn(after)
+                return None
             writer = z3.Function(fresh_name("writer"), z3.IntSort(), z3.IntSort())
             p = z3.Int(fresh_name("fp"))
             E.assume(z3.ForAll([p], z3.Implies(z3.Exists([q], z3.And(q >= 0, q < m, pos(q) == p)),
